@@ -129,6 +129,9 @@ def _searcher_cases():
     cases["grid(shuffled)"] = lambda seed: GridSearcher(small, metric="loss", random_seed=seed)
     cases["grid(not shuffled)"] = lambda seed: GridSearcher(small, metric="loss", random_seed=seed, shuffle_config=False)
     cases["grid(allow_duplicates)"] = lambda seed: GridSearcher({"b": choice([1, 2, 3])}, metric="loss", random_seed=seed, allow_duplicates=True)
+    # small grids: the snapshot positions reach and pass the point where the grid is used up
+    cases["grid(3 configurations)"] = lambda seed: GridSearcher({"b": choice([1, 2, 3])}, metric="loss", random_seed=seed)
+    cases["grid(4 configurations, initial point)"] = lambda seed: GridSearcher({"a": choice(["p", "q"]), "b": choice([1, 2])}, metric="loss", random_seed=seed, points_to_evaluate=[{"a": "q", "b": 1}], shuffle_config=False)
     return cases
 
 
@@ -288,6 +291,34 @@ def _gp_twin(tier):
         b = drive2(clone, k, 8)
         if a != b:
             viol.append({"clause": "restored-gp-searcher-continues-identically", "case": "4 configurations, allow_duplicates", "snapshot_after": k, "original": repr(a)[:200], "restored": repr(b)[:200]})
+            break
+    # a trial that failed before reporting anything is remembered only through the state's list of failed trials: the
+    # restored searcher must keep avoiding its configuration
+    kw3 = dict(kw, allow_duplicates=False)
+
+    def drive3(s, lo, hi, fail):
+        out = []
+        for i in range(lo, hi):
+            cfg = s.get_config(trial_id=str(i))
+            out.append(None if cfg is None else cfg["c"])
+            if cfg is None:
+                continue
+            s.register_pending(str(i), config=cfg)
+            if i in fail:
+                s.evaluation_failed(str(i))
+            else:
+                s.on_trial_result(str(i), cfg, {"loss": {"p": 0.4, "q": 0.1, "r": 0.3, "s": 0.2}[cfg["c"]]}, update=True)
+        return out
+
+    for fail, k in (((0,), 1), ((1,), 2), ((0, 1), 2)) if tier == "quick" else (((0,), 1), ((0,), 2), ((1,), 2), ((0, 1), 2), ((2,), 3)):
+        n += 1
+        orig = GPFIFOSearcher(tiny, **kw3)
+        first = drive3(orig, 0, k, fail)
+        clone = GPFIFOSearcher(tiny, **kw3).clone_from_state(copy.deepcopy(orig.get_state()))
+        a = drive3(orig, k, 7, fail)
+        b = drive3(clone, k, 7, fail)
+        if a != b or any(x is not None and x in first for x in b):
+            viol.append({"clause": "restored-gp-searcher-continues-identically", "case": "4 configurations, trial(s) %s failed before the snapshot" % (fail,), "snapshot_after": k, "before": repr(first), "original": repr(a)[:200], "restored": repr(b)[:200]})
             break
     return {"n": n, "viol": viol}
 
